@@ -223,7 +223,7 @@ func genIndex(t *rapid.T) IndexSpec {
 	}
 	s.Merge = rapid.IntRange(0, 3).Draw(t, "merge") == 0
 	if !s.Merge {
-		s.SegV2 = rapid.IntRange(0, 3).Draw(t, "segV2") == 0
+		s.SegV2 = rapid.IntRange(0, 9).Draw(t, "segV2") == 0 // building v2 segments is expensive (zstd encoder per field)
 	}
 	p := genPalette(t)
 	var ndocs int
@@ -764,11 +764,12 @@ func judged(keys []Key) bool {
 }
 
 type env struct {
-	o       *opened
-	ids     map[uint64]string // doc number -> id, from a match-all pass over the same reader
-	fulls   map[int][]hit     // per query: AllMatches in delivery order
-	qs      []QSpec
-	nsearch int
+	o        *opened
+	ids      map[uint64]string // doc number -> id, from a match-all pass over the same reader
+	fulls    map[int][]hit     // per query: AllMatches in delivery order
+	qs       []QSpec
+	nsearch  int
+	noStored bool // do not read stored fields (segment version 2)
 }
 
 const searchSite = "Reader.Search"
@@ -808,7 +809,49 @@ func (e *env) allMatches(q bluge.Query, withIDs bool) ([]hit, *vlib.Failure) {
 	return out, f
 }
 
+// initByTerm maps document numbers to ids without reading stored fields (segment version 2: the
+// bundled ice/v2 panics when the stored fields of the last document of a segment are read, third-party
+// defect classified by vlib as icev2-stored-offsets-panic): one term search on _id per live id.
+func (e *env) initByTerm() *vlib.Failure {
+	all, f := e.allMatches(bluge.NewMatchAllQuery(), false)
+	if f != nil {
+		return f
+	}
+	e.ids = map[uint64]string{}
+	ids := make([]string, 0, len(e.o.model))
+	for id := range e.o.model {
+		ids = append(ids, id)
+	}
+	sort.Strings(ids)
+	for _, id := range ids {
+		hs, f := e.allMatches(bluge.NewTermQuery(id).SetField("_id"), false)
+		if f != nil {
+			return f
+		}
+		if len(hs) != 1 {
+			return vlib.Failf("precondition-live-set", "term search for _id %q delivers %d documents", id, len(hs))
+		}
+		if other, dup := e.ids[hs[0].num]; dup {
+			return vlib.Failf("precondition-live-set", "document number %d is delivered for ids %q and %q", hs[0].num, other, id)
+		}
+		e.ids[hs[0].num] = id
+	}
+	if len(all) != len(e.o.model) {
+		return vlib.Failf("precondition-live-set", "match-all delivers %d documents, the model has %d live", len(all), len(e.o.model))
+	}
+	for _, h := range all {
+		if _, ok := e.ids[h.num]; !ok {
+			return vlib.Failf("precondition-live-set", "match-all delivers document number %d which no live id maps to", h.num)
+		}
+	}
+	e.fulls = map[int][]hit{}
+	return nil
+}
+
 func (e *env) init() *vlib.Failure {
+	if e.noStored {
+		return e.initByTerm()
+	}
 	all, f := e.allMatches(bluge.NewMatchAllQuery(), true)
 	if f != nil {
 		return f
@@ -1210,7 +1253,7 @@ func propIndex(c IndexCase, cs *caseStats) *vlib.Failure {
 			return f
 		}
 		defer o.cleanup()
-		e := &env{o: o, qs: c.Queries}
+		e := &env{o: o, qs: c.Queries, noStored: c.Index.SegV2}
 		defer func() { cs.search = e.nsearch }()
 		if f := e.init(); f != nil {
 			return f
@@ -1272,7 +1315,7 @@ func (c IndexCase) summary() map[string]interface{} {
 }
 
 func TestC09Index(t *testing.T) {
-	vlib.Check(t, 100, 450, func(rt *rapid.T) {
+	vlib.Check(t, 100, 350, func(rt *rapid.T) {
 		c := genIndexCase(rt)
 		var cs caseStats
 		f := propIndex(c, &cs)
